@@ -18,7 +18,7 @@ pub const RATIO_LIMIT: f64 = 12.0;
 pub const ABS_FLOOR: f64 = 0.5;
 pub const CPU_CAP: u64 = 60;
 
-pub const SHAPES: [&str; 9] = ["lines-with-range-mappings", "one-line-segments", "names", "sources-with-contents", "text-and-tokens", "index-sections", "hermes-scopes", "equal-positions", "sourceroot-absolute-sources"];
+pub const SHAPES: [&str; 11] = ["lines-with-range-mappings", "one-line-segments", "names", "sources-with-contents", "text-and-tokens", "index-sections", "hermes-scopes", "equal-positions", "sourceroot-absolute-sources", "index-of-hermes-equal-scopes", "hermes-equal-scopes"];
 
 fn cpu_now() -> f64 {
     let mut ts = libc::timespec { tv_sec: 0, tv_nsec: 0 };
@@ -127,6 +127,24 @@ pub fn document(shape: &str, n: usize) -> String {
             list(n, &|k| format!("\"/abs/m{}/s{k}.js\"", k % 89)),
             toks(n, 100, "AAAA", "CCAA")
         ),
+        // a Hermes map whose function map has very many scopes starting at one position, and as
+        // many unnamed tokens whose original position is exactly that one; top level and as the
+        // only section of an index
+        "index-of-hermes-equal-scopes" | "hermes-equal-scopes" => {
+            let mut scopes = String::from("AAA");
+            for _ in 1..n {
+                scopes.push_str(",AAA");
+            }
+            let map = format!(
+                "{{\"version\":3,\"sources\":[\"a.js\"],\"names\":[],\"mappings\":\"{}\",\"x_facebook_sources\":[[{{\"names\":[\"f\"],\"mappings\":\"{scopes}\"}}]]}}",
+                toks(n, usize::MAX, "AAAA", "CAAA")
+            );
+            if shape == "hermes-equal-scopes" {
+                map
+            } else {
+                format!("{{\"version\":3,\"sections\":[{{\"offset\":{{\"line\":0,\"column\":0}},\"map\":{map}}}]}}")
+            }
+        }
         _ => simcore::harness_error(&format!("unknown shape {shape}")),
     }
 }
